@@ -141,7 +141,11 @@ impl<'l> PktParser<'l> {
                     domainv.push(dnspkt::Label::from(self.get_bytes(prefix as usize)?));
                 }
                 offset_high if offset_high & 0b1100_0000 == 0b1100_0000 => {
-                    if depth > 10 {
+                    // A name has at most 127 labels, and a well-formed compressed name (such as
+                    // the ones our own encoder produces for names that extend one another label
+                    // by label) gains at least one label per pointer, so it never needs more hops
+                    // than that.  The bound is what stops pointer loops.
+                    if depth > 127 {
                         return Err("Compression Corruption".into());
                     }
                     // Compressed label.
